@@ -4,6 +4,7 @@ mod c19;
 mod c20;
 mod c04;
 mod c17;
+mod c06;
 mod c16;
 mod c10;
 mod tables;
@@ -53,6 +54,7 @@ fn main() {
         "c20" => c20::run(&args),
         "c04" => c04::run(&args),
         "c17" => c17::run(&args),
+        "c06" => c06::run(&args),
         "c16" => c16::run(&args),
         "c10" => c10::run(&args),
         "run" => {
